@@ -8,7 +8,9 @@
 #define TABLES_OK(v) (__CPROVER_is_fresh((v)->fpowm_table_g, TMCG_MAX_FPOWM_T * sizeof(mpz_t)) && \
    __CPROVER_is_fresh((v)->fpowm_table_h, TMCG_MAX_FPOWM_T * sizeof(mpz_t)) && \
    V((v)->fpowm_table_g[0]) == V((v)->g) && V((v)->fpowm_table_h[0]) == V((v)->h) && V((v)->p) > 1)
-#define MAXTYPES 1024   /* 2^TMCG_MAX_TYPEBITS */
+#ifndef MAXTYPES
+#define MAXTYPES 1024   /* 2^TMCG_MAX_TYPEBITS; the finder variant uses 4 */
+#endif
 /* ghost_idx[t] names the element g^t that encodes card type t (Skolem array, never assigned; tied to the
  * term POWM(g, t, p) by the contract of IndexElement) */
 long ghost_idx[MAXTYPES];
